@@ -109,7 +109,7 @@ def c09_cases(rng, n):
                 tname, case["defs"] = rng.choice([
                     ("small", "small = uint .le 100\n"), ("tiny", "tiny = small\nsmall = uint .le 100\n"),
                     ("port", "port = uint .size 1\n"), ("cls", "cls = uint / nint\n"), ("neg", "neg = nint .ge -50\n"),
-                    ("rng", "rng = 2..40\n"), ("al", "al = al2\nal2 = int\n")])
+                    ("al", "al = al2\nal2 = int\n")])
                 case["types"] = [None]
                 case["target_rule"] = tname
             case["texts"] = ["%s .ne %s" % (tname, ast.lit_cddl(lit)), tname, "%s .eq %s" % (tname, ast.lit_cddl(lit))]
@@ -189,7 +189,7 @@ def run_c09(prop, prop_file, tier, seed):
     proved = common.prove(res, prop, prop_file, EXTRACT)
     drv = common.build_harness("c01")
     rng = random.Random(seed)
-    n = (700 if tier == "quick" else 20000) * (2 if not proved else 1)
+    n = (2500 if tier == "quick" else 20000) * (2 if not proved else 1)
     cases = c09_cases(rng, n)
     items, index = [], []
     for ci, c in enumerate(cases):
@@ -480,7 +480,7 @@ def run_c08(prop, prop_file, tier, seed):
     proved = common.prove(res, prop, prop_file, EXTRACT)
     drv = common.build_harness("c01")
     rng = random.Random(seed)
-    n = (900 if tier == "quick" else 30000) * (2 if not proved else 1)
+    n = (3000 if tier == "quick" else 30000) * (2 if not proved else 1)
     items, meta = [], []
     for i in range(n):
         o = gen.Opts(cbor=False, clean_maps=True, depth=rng.choice([1, 2, 2]))
@@ -665,7 +665,7 @@ def run_c10(prop, prop_file, tier, seed):
     drv = common.build_harness("c01")
     orc = common.build_oracle("sem", ["sem_model"])
     rng = random.Random(seed)
-    n = (1200 if tier == "quick" else 40000) * (2 if not proved else 1)
+    n = (4000 if tier == "quick" else 40000) * (2 if not proved else 1)
     items, meta = [], []
     for i in range(n):
         cb = rng.random() < 0.5
@@ -691,7 +691,7 @@ def run_c10(prop, prop_file, tier, seed):
     jv, cv = both_modes(drv, items, rng)
     # duplicate / equivalent keys in CBOR maps: compared with the model (every physical pair must be accounted for)
     dup_pairs = []
-    for i in range(800 if tier == "quick" else 8000):
+    for i in range(2500 if tier == "quick" else 8000):
         key = rng.choice([("txt", "a"), ("int", 1), ("txt", "k1")])
         vt_ = rng.choice([("ref", "int"), ("ref", "tstr"), ("ref", "any"), ("ref", "any")])
         members = ("ent", ("lit", key), True, vt_)
@@ -818,7 +818,7 @@ def run_c04(prop, prop_file, tier, seed):
     proved = common.prove(res, prop, prop_file, EXTRACT)
     drv = common.build_harness("c01")
     rng = random.Random(seed)
-    n = (1500 if tier == "quick" else 50000) * (2 if not proved else 1)
+    n = (5000 if tier == "quick" else 50000) * (2 if not proved else 1)
     items, meta = [], []
     for text, docs in SHARED_EXTRAS:
         for d in docs:
